@@ -20,7 +20,7 @@ theorem C12_ehlo_reply (s : S) (arg domain : Bytes)
     (hd : Parse.parseHelloArgument arg = some domain) (hs : s.c.session = none)
     (hns : NsAccepts s) (hcl : s.c.closed = false) :
     (handleGreet s true arg).1.evs.head? =
-      some (.w (render 250 noEnh (("Hello ".b ++ domain) :: Mon.capsTable s.cfg s.c.tls))) := by
+      some (.w (render 250 noEnh (("Hello ".b ++ Text.printable domain) :: Mon.capsTable s.cfg s.c.tls))) := by
   rw [← C12_caps_exact]
   unfold handleGreet
   rcases hns with h | ⟨t, h⟩ <;>
@@ -30,7 +30,7 @@ theorem C12_ehlo_reply (s : S) (arg domain : Bytes)
 theorem C12_helo_none (s : S) (arg domain : Bytes)
     (hd : Parse.parseHelloArgument arg = some domain) (hs : s.c.session = none)
     (hns : NsAccepts s) (hcl : s.c.closed = false) :
-    (handleGreet s false arg).1.evs.head? = some (.w (render 250 ⟨2, 0, 0⟩ ["Hello ".b ++ domain])) := by
+    (handleGreet s false arg).1.evs.head? = some (.w (render 250 ⟨2, 0, 0⟩ ["Hello ".b ++ Text.printable domain])) := by
   unfold handleGreet
   rcases hns with h | ⟨t, h⟩ <;>
     simp [hd, hs, popNs, h, replyB, write, emit, hcl, setHelo, newSession, greetReply]
